@@ -15,8 +15,8 @@ Ltac split_vars :=
           | |- context [?x && _] => is_var x; destruct x
           | H : context [?x && _] |- _ => is_var x; destruct x
           end).
-Ltac open_shape sh := destruct sh as [n ex ks kvn by0 ke ie];
-  unfold run, validate, check_shape, safeops_delta, vigil_delta in *; cbn [sh_name sh_exists sh_keys sh_kvnil sh_by0 sh_key_empty sh_id_empty v_short v_getkeys] in *.
+Ltac open_shape sh := destruct sh as [n ex ks kvn by0 ke ie wk];
+  unfold run, validate, check_shape, safeops_delta, vigil_delta in *; cbn [sh_name sh_exists sh_keys sh_kvnil sh_by0 sh_key_empty sh_id_empty sh_wkey_empty v_short v_getkeys] in *.
 
 (* safeops: LockSystem is always matched by the deferred UnlockSystem - on a reject, on a panic in
    the validation, on a panic in the body and on every normal return. vigil: BeginVigil is matched by
@@ -57,10 +57,10 @@ Qed.
 (* the pinned commit: every handler that loads the name panics on a short name, Get on Keys = [] *)
 Definition short_shape : shape :=
   {| sh_name := NShort; sh_exists := false; sh_keys := KOk; sh_kvnil := false; sh_by0 := false;
-     sh_key_empty := false; sh_id_empty := false |}.
+     sh_key_empty := false; sh_id_empty := false; sh_wkey_empty := false |}.
 Definition emptykeys_shape : shape :=
   {| sh_name := NOk; sh_exists := true; sh_keys := KEmptyList; sh_kvnil := false; sh_by0 := false;
-     sh_key_empty := false; sh_id_empty := false |}.
+     sh_key_empty := false; sh_id_empty := false; sh_wkey_empty := false |}.
 Theorem well_defined_refuted_pinned :
   (forall h, In h all_handlers -> h <> HLock -> h <> HUnlock -> validate vcfg_pinned h short_shape = PanicAt) /\
   validate vcfg_pinned HGet emptykeys_shape = PanicAt /\
@@ -74,5 +74,5 @@ Qed.
 Example ex_reject : validate vcfg_now HGetAll short_shape = Reject EInvalid false.
 Proof. reflexivity. Qed.
 Example ex_proceed : validate vcfg_now HGet
-  {| sh_name := NOk; sh_exists := true; sh_keys := KOk; sh_kvnil := false; sh_by0 := false; sh_key_empty := false; sh_id_empty := false |} = Proceed.
+  {| sh_name := NOk; sh_exists := true; sh_keys := KOk; sh_kvnil := false; sh_by0 := false; sh_key_empty := false; sh_id_empty := false; sh_wkey_empty := false |} = Proceed.
 Proof. reflexivity. Qed.
